@@ -175,7 +175,7 @@ ParseData(s) ==
 (***************************************************************************)
 Miss == [hit |-> FALSE, tok |-> NoTok, e |-> 0, err |-> "", ea |-> 0, eb |-> 0]
 Hit(tok, e) == [hit |-> TRUE, tok |-> tok, e |-> e, err |-> "", ea |-> 0, eb |-> 0]
-Fail(kind, a, b) == [hit |-> TRUE, tok |-> NoTok, e |-> 0, err |-> kind, ea |-> a, eb |-> b]
+LexFail(kind, a, b) == [hit |-> TRUE, tok |-> NoTok, e |-> 0, err |-> kind, ea |-> a, eb |-> b]
 
 OneCharKinds == [b \in {58, 59, 44, 63, 40, 41, 43, 45, 42, 47, 94, 61, 60, 62} |->
     CASE b = 58 -> "colon" [] b = 59 -> "semicolon" [] b = 44 -> "comma" [] b = 63 -> "questionmark"
@@ -201,7 +201,7 @@ FindQuote(line, i) == \* offset of the first quote at or after i, or -1
 MatchString(line, i) ==
     IF line[i + 1] # QUOTE THEN Miss
     ELSE LET q == FindQuote(line, i + 1)
-         IN  IF q < 0 THEN Fail("unterminated_string", i, i)
+         IN  IF q < 0 THEN LexFail("unterminated_string", i, i)
              ELSE Hit(TkS("stringliteral", Slice(line, i + 1, q)), q + 1)
 
 \* [digs, last]: crunched digits and dots from i, and the offset after the last of them.
@@ -216,7 +216,7 @@ MatchNumber(line, i) ==
     LET r == NumRun(line, i, <<>>, 0 - 1)
     IN  IF r.last < 0 THEN Miss
         ELSE IF F64Syntax(r.digs) THEN Hit(TkN(F64Value(r.digs)), r.last)
-        ELSE Fail("invalid_number", i, r.last)
+        ELSE LexFail("invalid_number", i, r.last)
 
 MatchRemark(line, i) ==
     LET e == ChompKw(line, i, KwREM)
@@ -253,7 +253,7 @@ NextToken(line, i) ==
         ELSE LET m4 == MatchRemark(line, i) IN IF m4.hit THEN m4
         ELSE LET m5 == MatchData(line, i) IN IF m5.hit THEN m5
         ELSE LET m6 == MatchSymbol(line, i) IN IF m6.hit THEN m6
-        ELSE Fail("illegal_character", i, i)
+        ELSE LexFail("illegal_character", i, i)
 
 (***************************************************************************)
 (* Tokenize(line, skip) == [toks, ranges, err, ea, eb]                     *)
